@@ -30,7 +30,7 @@ RULE = ("(script) every legal command sequence up to length L over {assert x3, a
 
 # ---------------------------------------------------------------- script side
 
-SCRIPT_LETTERS = ["A", "B", "C3", "S0", "Sg", "Sg2", "Sh", "P0", "P1", "P2", "Q0", "Q1", "Q2", "R", "K", "Mi", "Ma", "MM", "Mb"]
+SCRIPT_LETTERS = ["A", "B", "C3", "S0", "Sg", "Sg2", "Sh", "P0", "P1", "P2", "Q0", "Q1", "Q2", "R", "RR", "K", "Mi", "Ma", "MM", "Mb"]
 
 
 class ScriptWorld(object):
@@ -71,6 +71,9 @@ class ScriptWorld(object):
             return SmtLibCommand(smtcmd.POP, [int(letter[1])]), ("pop", int(letter[1]))
         if letter == "R":
             return SmtLibCommand(smtcmd.RESET_ASSERTIONS, []), ("reset",)
+        if letter == "RR":
+            # (reset) empties the assertion stack too (and removes the declarations: the text route re-declares)
+            return SmtLibCommand(smtcmd.RESET, []), ("reset",)
         if letter == "K":
             return SmtLibCommand(smtcmd.CHECK_SAT, []), ("check",)
         if letter == "Mi":
@@ -89,13 +92,16 @@ class ScriptWorld(object):
         raise KeyError(letter)
 
 
+DECLS_TEXT = ("(declare-fun a () Bool)(declare-fun b () Bool)(declare-const c Bool)(declare-fun d () Bool)"
+              "(declare-fun e () Bool)(declare-fun x () Int)(declare-fun y () Int)"
+              "(declare-fun v () (_ BitVec 4))(declare-fun w () (_ BitVec 4))")
 TEXT = {
     "A": ["(assert a)"], "B": ["(assert (or (not a) b))"], "C3": ["(assert (< x y))"],
     "S0": ["(assert-soft c)"], "Sg": ["(assert-soft d :weight 2 :id g)", "(assert-soft d :id g :weight 2)"],
     "Sg2": ["(assert-soft e :id g :weight 3)"], "Sh": ["(assert-soft e :id h)"],
     "P0": ["(push 0)"], "P1": ["(push 1)", "(push)"], "P2": ["(push 2)"],
     "Q0": ["(pop 0)"], "Q1": ["(pop 1)", "(pop)"], "Q2": ["(pop 2)"],
-    "R": ["(reset-assertions)"], "K": ["(check-sat)"],
+    "R": ["(reset-assertions)"], "K": ["(check-sat)"], "RR": ["(reset)" + DECLS_TEXT],
     "Mi": ["(minimize x :id o1)"], "Ma": ["(maximize v :signed)"], "MM": ["(minmax v w)"],
     "Mb": ["(minimize w :id o2 :signed)"],
 }
@@ -137,7 +143,7 @@ def legal(seq):
             if int(l[1]) > depth:
                 return False
             depth -= int(l[1])
-        elif l == "R":
+        elif l in ("R", "RR"):
             depth = 0
     return True
 
@@ -260,8 +266,10 @@ def check_script_sequence(run, world, seq, via_text=None):
             raised = True
         if has_pp and not raised:
             run.fail({"subcheck": "script:strict-accepts-push-pop"}, case, "get_strict_formula accepted %s" % " ".join(seq))
-        elif not has_pp and nk == 1 and "R" not in seq:
-            allasserts = world.m.And([ev[1] for ev in events if ev[0] == "assert"])
+        elif not has_pp and nk == 1:
+            # the conjunction of the assertions (those that a reset-assertions / reset has not removed)
+            last = max([i for i, ev in enumerate(events) if ev[0] == "reset"] + [-1])
+            allasserts = world.m.And([ev[1] for ev in events[last + 1:] if ev[0] == "assert"])
             if raised or sf is not allasserts:
                 run.fail({"subcheck": "script:strict-formula"}, case, "get_strict_formula on %s" % " ".join(seq))
 
@@ -299,7 +307,7 @@ def shard_script_sampled(shard, seed, n):
                 depth += int(l[1])
             elif l[0] == "Q":
                 depth -= int(l[1])
-            elif l == "R":
+            elif l in ("R", "RR"):
                 depth = 0
             seq.append(l)
         check_script_sequence(run, world, tuple(seq), via_text=rnd.choice([None, 0, 1]))
